@@ -347,6 +347,18 @@ func (c10) Generate(seed uint64, tier string, index int) any {
 	if g.R.Intn(3) == 0 {
 		opts = append(opts, "--delete")
 	}
+	if g.R.Intn(3) == 0 {
+		// options outside the model that the client accepts and forwards: -n must
+		// reach the other side and be honoured whatever else is on the line
+		for i := 0; i < 1+g.R.Intn(2); i++ {
+			w := c14WideOpts[g.R.Intn(len(c14WideOpts))]
+			if g.R.Bool() {
+				opts = append(opts, w)
+			} else {
+				opts = append([]string{w}, opts...)
+			}
+		}
+	}
 	to := TreeOpts{MaxEntries: 12, ByteBudget: 256 << 10, PlainNames: true, Symlinks: true, Specials: true, Devices: true}
 	sc := genSync(g, arr, opts, to, true)
 	sc.ModuleFS = false
